@@ -20,6 +20,32 @@ def field_of(loc):
     return None
 
 
+def fields_of(fx, loc, limit=200):
+    """set of ('root', 'attr') the write location may denote, following local aliases
+    (`siblings = self.indexes[name]; siblings.append(x)` writes an element of ElementList.indexes)"""
+    out = set()
+    seen = set()
+    work = [loc]
+    while work and len(seen) < limit:
+        k = work.pop()
+        if k in seen or not isinstance(k, tuple) or not k:
+            continue
+        seen.add(k)
+        f = field_of(k)
+        if f:
+            out.add(f)
+            continue
+        if k[0] == 'elem':
+            for a in fx.edges.get(k[1], ()):
+                if isinstance(a, tuple) and a:
+                    work.append(('elem', a))
+            continue
+        if k[0] in ('var', 'local'):
+            for a in fx.edges.get(('var',) + tuple(k[1:]), ()):
+                work.append(a)
+    return out
+
+
 def polarity(w):
     if w.how in REMOVE:
         return 'remove'
@@ -41,9 +67,9 @@ def class_write_summary(c, root=EL):
     for name, fi in ci.methods.items():
         evs = set()
         for w in fx.writes.get(fi.qualname, ()):
-            f = field_of(w.loc)
-            if f and f[0] == root and not is_reset(w):
-                evs.add((f[1], polarity(w)))
+            for f in fields_of(fx, w.loc):
+                if f[0] == root and not is_reset(w):
+                    evs.add((f[1], polarity(w)))
         own[fi.qualname] = evs
         for sub in fi.nested.values():
             for w in fx.writes.get(sub.qualname, ()):
@@ -69,11 +95,11 @@ def node_events(c, fi, summary, root=EL):
     g = cfg_of(fi)
     ev = {}
     for w in c.fx.writes.get(fi.qualname, ()):
-        f = field_of(w.loc)
-        if f and f[0] == root and not is_reset(w):
-            nid = g.node_for(w.node)
-            if nid:
-                ev.setdefault(nid, set()).add((f[1], polarity(w)))
+        for f in fields_of(c.fx, w.loc):
+            if f[0] == root and not is_reset(w):
+                nid = g.node_for(w.node)
+                if nid:
+                    ev.setdefault(nid, set()).add((f[1], polarity(w)))
     for s in c.cg.sites.get(fi.qualname, ()):
         for t in s.targets:
             if t.kind == 'func' and t.func.qualname in summary and t.func.qualname != fi.qualname:
